@@ -370,6 +370,7 @@ def sweep (t : ReqTables) (pre : List Byte) (n : Nat) : String :=
     back whatever the handler returned, so the model's answer does not depend on it -/
 def dropCanned : List String → List String
   | ["call2", entry, lb, req, fail, _] => ["call2", entry, lb, req, fail]
+  | ["reqs", cfg, hex] => ["req", cfg, hex]          -- the same request on a small stack: the model has no stack
   | l => l
 
 def handle (src : Source) (line : String) : String :=
